@@ -104,6 +104,52 @@ def run(ctx):
                           rules.where(bf, b2), fn=bf)
     ctx.floor("sql:monotone", n, 4, "timestamped upserts (routing, repo-sync-status, refs, announcements)")
 
+    # the same obligation for *every* statement that writes the timestamp of one of these tables, wherever it is prepared
+    # (a second writer with a weaker guard breaks "only moves to strictly newer timestamps" just as well)
+    tables = dict((t_, v_) for _, t_, v_ in MONOTONE)
+    listed = [re.compile(fp) for fp, _, _ in MONOTONE]
+    extra = 0
+    for fn in db.all_fns():
+        if fn["crate"] not in ("radicle", "radicle_node") or any(r_.search(db.root_of(fn)["key"]) for r_ in listed):
+            continue
+        for bb, t, c in db.calls(fn):
+            nme = c.get("n") or ""
+            if not (nme.endswith("::prepare") and "sqlite" in nme and len(t[2]) > 1):
+                continue
+            for s_ in sql.const_strs(fn, t[2][1]):
+                toks = sql.tokenize(s_)
+                info = sql.upsert_info(s_)
+                table = None
+                writes_ts = False
+                if info and info["table"] and info["table"].strip("`") in tables:
+                    table = info["table"].strip("`")
+                    writes_ts = "timestamp" in info["set"]
+                elif toks and toks[0] == "UPDATE" and len(toks) > 1 and toks[1].strip("`") in tables:
+                    table = toks[1].strip("`")
+                    cl = dict((h, b) for h, b in sql.split_clauses(toks))
+                    writes_ts = any(part and part[0] == "timestamp" for part in sql._split_commas(cl.get("SET", [])))
+                if not table or not writes_ts:
+                    continue
+                extra += 1
+                rk = cfg.short(db.root_of(fn)["key"])
+                if info:
+                    ok, msg = sql.lint_monotone_upsert(s_)
+                    vcol = tables[table]
+                    ok2, msg2 = sql.lint_value_change(s_, vcol) if vcol else (True, "")
+                else:
+                    cl = dict((h, b) for h, b in sql.split_clauses(toks))
+                    conj = sql.conjuncts(cl.get("WHERE", []))
+                    ok = any(len(cj) == 3 and cj[0] == "timestamp" and cj[1] == "<" and cj[2].startswith("?") for cj in conj)
+                    msg = "UPDATE without `WHERE timestamp < ?k`" if not ok else "guarded"
+                    ok2, msg2 = True, ""
+                ctx.check("sql:B1:%s:%s" % (table, rk), ok is True,
+                          "statement in %s that writes `%s`.timestamp only replaces strictly older rows: %s" % (rk, table, msg),
+                          rules.where(fn, bb), detail=" ".join(s_.split()), fn=fn)
+                if tables[table]:
+                    ctx.check("sql:B2:%s:%s" % (table, rk), ok2 is True, "statement in %s that writes `%s` requires a changed %s: %s" % (rk, table, tables[table], msg2),
+                              rules.where(fn, bb), fn=fn)
+    ctx.ob("sql:other-writers", "held", "%d further statement(s) writing the timestamp of a monotone table were checked" % extra, "", sites=extra)
+
     # B4 prune
     pr = db.find(r"^<radicle::node::db::Database as radicle::node::routing::Store>::prune$")
     if len(pr) != 1:
